@@ -12,37 +12,42 @@ static Json ivec(const std::array<int, 3>& v) {
   for (auto x : v) a.push(Json(static_cast<long long>(x)));
   return a;
 }
-int main(int argc, char** argv) {
-  if (argc < 3) return 2;
-  const auto cases = vp::readNdjson(argv[1]);
-  vp::Out::open(argv[2]);
-  for (const auto& c : cases) {
-    Json r = c;
-    const auto st = c["structure"].asStr();
-    const auto cs = st == "Cubic" ? CrystalStructure::Cubic : (st == "BCC" ? CrystalStructure::BCC : CrystalStructure::FCC);
-    const auto bv = c["b"].asInts(), nv = c["n"].asInts();
-    const SSD::vec3d b = {int(bv[0]), int(bv[1]), int(bv[2])}, n = {int(nv[0]), int(nv[1]), int(nv[2])};
-    long long threw = 0, unit = 1, orth = 1, par = 1, tens = 1, schmid = 1, ranksym = 1;
-    Json systems = Json::array();
-    try {
-      SSD ssd(cs);
-      ssd.addSlipSystemsFamily(b, n);
-      const auto ss = ssd.getSlipSystems(0);
-      const auto ns = ssd.getSlipPlaneNormals(0);
-      const auto ds = ssd.getSlipDirections(0);
-      const auto ts = ssd.getOrientationTensors(0);
-      if (ns.size() != ss.size() || ds.size() != ss.size() || ts.size() != ss.size()) unit = 0;
-      for (size_t i = 0; i < ss.size(); ++i) {
-        const auto& s = ss[i].get<SSD::system3d>();
-        Json p = Json::array();
-        p.push(ivec(s.burgers)).push(ivec(s.plane));
-        systems.push(p);
-        if (i >= ns.size() || i >= ds.size() || i >= ts.size()) continue;
-        const auto& N = ns[i];
-        const auto& D = ds[i];
-        auto dot = [](const auto& u, const auto& v) { return u[0] * v[0] + u[1] * v[1] + u[2] * v[2]; };
-        if (std::fabs(double(dot(N, N)) - 1) > 1e-12 || std::fabs(double(dot(D, D)) - 1) > 1e-12) unit = 0;
-        if (std::fabs(double(dot(N, D))) > 1e-12) orth = 0;
+template <typename Vec, typename System, size_t NI>
+static void runCase(const Json& c, const CrystalStructure cs) {
+  Json r = c;
+  const auto bv = c["b"].asInts(), nv = c["n"].asInts();
+  Vec b, n;
+  for (size_t q = 0; q < NI; ++q) {
+    b[q] = int(bv[q]);
+    n[q] = int(nv[q]);
+  }
+  long long threw = 0, unit = 1, orth = 1, par = 1, tens = 1, schmid = 1, ranksym = 1;
+  Json systems = Json::array();
+  try {
+    SSD ssd(cs);
+    ssd.addSlipSystemsFamily(b, n);
+    const auto ss = ssd.getSlipSystems(0);
+    const auto ns = ssd.getSlipPlaneNormals(0);
+    const auto ds = ssd.getSlipDirections(0);
+    const auto ts = ssd.getOrientationTensors(0);
+    if (ns.size() != ss.size() || ds.size() != ss.size() || ts.size() != ss.size()) unit = 0;
+    for (size_t i = 0; i < ss.size(); ++i) {
+      const auto& s = ss[i].template get<System>();
+      Json p = Json::array();
+      Json jb = Json::array(), jn = Json::array();
+      for (size_t q = 0; q < NI; ++q) {
+        jb.push(Json(static_cast<long long>(s.burgers[q])));
+        jn.push(Json(static_cast<long long>(s.plane[q])));
+      }
+      p.push(jb).push(jn);
+      systems.push(p);
+      if (i >= ns.size() || i >= ds.size() || i >= ts.size()) continue;
+      const auto& N = ns[i];
+      const auto& D = ds[i];
+      auto dot = [](const auto& u, const auto& v) { return u[0] * v[0] + u[1] * v[1] + u[2] * v[2]; };
+      if (std::fabs(double(dot(N, N)) - 1) > 1e-12 || std::fabs(double(dot(D, D)) - 1) > 1e-12) unit = 0;
+      if (std::fabs(double(dot(N, D))) > 1e-12) orth = 0;
+      if constexpr (NI == 3) {
         // parallel to the integer vectors (cross products vanish, same orientation up to sign)
         auto cross0 = [](const auto& u, const std::array<int, 3>& v) {
           const long double cx = u[1] * v[2] - u[2] * v[1], cy = u[2] * v[0] - u[0] * v[2], cz = u[0] * v[1] - u[1] * v[0];
@@ -50,11 +55,13 @@ int main(int argc, char** argv) {
           return std::fabs(double(cx)) + std::fabs(double(cy)) + std::fabs(double(cz)) <= 1e-12 * double(nv2);
         };
         if (!cross0(N, s.plane) || !cross0(D, s.burgers)) par = 0;
-        // orientation tensor = direction (x) normal, TFEL tensor order 11 22 33 12 21 13 31 23 32
-        const int I[9] = {0, 1, 2, 0, 1, 0, 2, 1, 2}, J[9] = {0, 1, 2, 1, 0, 2, 0, 2, 1};
-        for (int q = 0; q < 9; ++q)
-          if (std::fabs(double(ts[i][q] - D[I[q]] * N[J[q]])) > 1e-12) tens = 0;
       }
+      // orientation tensor = direction (x) normal, TFEL tensor order 11 22 33 12 21 13 31 23 32
+      const int I[9] = {0, 1, 2, 0, 1, 0, 2, 1, 2}, J[9] = {0, 1, 2, 1, 0, 2, 0, 2, 1};
+      for (int q = 0; q < 9; ++q)
+        if (std::fabs(double(ts[i][q] - D[I[q]] * N[J[q]])) > 1e-12) tens = 0;
+    }
+    if constexpr (NI == 3) {
       for (int x = -1; x <= 1; ++x)
         for (int y = -1; y <= 1; ++y)
           for (int z = -1; z <= 1; ++z) {
@@ -63,28 +70,51 @@ int main(int argc, char** argv) {
             for (auto f : sf)
               if (!(std::fabs(double(f)) <= 0.5 + 1e-12)) schmid = 0;
           }
-      try {
-        const auto ims = ssd.getInteractionMatrixStructure();
-        // every ordered pair has a rank below rank(); a system interacts with itself with one and the same rank,
-        // which no pair of distinct systems shares (docs/web/singlecrystal.md; the matrix itself is documented
-        // as non symmetric, so rank(g1,g2) = rank(g2,g1) is not required)
-        const auto self = ims.getRank(ss[0], ss[0]);
-        for (size_t i = 0; i < ss.size(); ++i)
-          for (size_t j = 0; j < ss.size(); ++j) {
-            const auto rk = ims.getRank(ss[i], ss[j]);
-            if (rk >= ims.rank()) ranksym = 0;
-            if ((i == j) != (rk == self)) ranksym = 0;
+    } else {
+      // loading directions in Miller-Bravais indices
+      for (int x = -1; x <= 1; ++x)
+        for (int y = -1; y <= 1; ++y)
+          for (int w = -1; w <= 1; ++w) {
+            if (!x && !y && !w) continue;
+            const auto sf = ssd.getSchmidFactors(SSD::vec4d{x, y, -(x + y), w}, 0);
+            if (sf.size() != ss.size()) schmid = 0;
+            for (auto f : sf)
+              if (!(std::fabs(double(f)) <= 0.5 + 1e-12)) schmid = 0;
           }
-      } catch (std::exception&) {
-        ranksym = 2;  // no structure available for this family
-      }
-    } catch (std::exception& e) {
-      threw = 1;
-      r.set("what", Json(std::string(e.what()).substr(0, 120)));
     }
-    r.set("threw", Json(threw)).set("systems", systems).set("unit", Json(unit)).set("orth", Json(orth)).set("parallel", Json(par));
-    r.set("tensors", Json(tens)).set("schmid", Json(schmid)).set("ranksym", Json(ranksym == 2 ? 1 : ranksym));
-    vp::Out::line(r);
+    try {
+      const auto ims = ssd.getInteractionMatrixStructure();
+      const auto self = ims.getRank(ss[0], ss[0]);
+      for (size_t i = 0; i < ss.size(); ++i)
+        for (size_t j = 0; j < ss.size(); ++j) {
+          const auto rk = ims.getRank(ss[i], ss[j]);
+          if (rk >= ims.rank()) ranksym = 0;
+          if ((i == j) != (rk == self)) ranksym = 0;
+        }
+    } catch (std::exception&) {
+      ranksym = 2;  // no structure available for this family
+    }
+  } catch (std::exception& e) {
+    threw = 1;
+    r.set("what", Json(std::string(e.what()).substr(0, 120)));
+  }
+  r.set("threw", Json(threw)).set("systems", systems).set("unit", Json(unit)).set("orth", Json(orth)).set("parallel", Json(par));
+  r.set("tensors", Json(tens)).set("schmid", Json(schmid)).set("ranksym", Json(ranksym == 2 ? 1 : ranksym));
+  vp::Out::line(r);
+}
+
+int main(int argc, char** argv) {
+  if (argc < 3) return 2;
+  const auto cases = vp::readNdjson(argv[1]);
+  vp::Out::open(argv[2]);
+  for (const auto& c : cases) {
+    const auto st = c["structure"].asStr();
+    if (st == "HCP") {
+      runCase<SSD::vec4d, SSD::system4d, 4>(c, CrystalStructure::HCP);
+    } else {
+      const auto cs = st == "Cubic" ? CrystalStructure::Cubic : (st == "BCC" ? CrystalStructure::BCC : CrystalStructure::FCC);
+      runCase<SSD::vec3d, SSD::system3d, 3>(c, cs);
+    }
   }
   vp::Out::close();
   return 0;
